@@ -457,6 +457,12 @@ def r5_wakeup_path(chk: Check):
     if ok:
         tb = [m for b, l in tests[0].succ if l is False for m, _ in b.succ]
         ok = any(m.kind == "stmt" and src(m.ast) == "return DependencyStatus.OK" for m in tb)
+        # ... and a request that does not fit waits: it is neither granted nor failed
+        for n in g2.live:
+            if n.kind == "stmt" and isinstance(n.ast, ast.Return) and n.ast.value is not None:
+                v = src(n.ast.value)
+                if v == "DependencyStatus.FAIL" or (v == "DependencyStatus.OK" and (tests[0], False) not in [(t, pol) for t, pol in g2.guards(n)]):
+                    ok = False
     chk.require(ok, chk.fkey(st, "OK iff fits"), "a token dependency must be OK exactly when the requested count fits in what is available", chk.loc(st.module, st.node))
 
 
